@@ -149,6 +149,7 @@ where
     install_quiet_hook();
     let out: Arc<Mutex<Option<ExecResult>>> = Arc::new(Mutex::new(None));
     let out2 = out.clone();
+    let (done_tx, done_rx) = std::sync::mpsc::channel::<()>();
     let th = std::thread::Builder::new()
         .stack_size(8 << 20)
         .spawn(move || {
@@ -206,8 +207,18 @@ where
                 events,
                 probes,
             });
+            let _ = done_tx.send(());
         })
         .expect("spawn sim thread");
+    // Watchdog: a simulated execution takes milliseconds. If it does not come back,
+    // the code under test blocked on something the simulator does not own (a real
+    // std primitive introduced outside the hooked imports): that is a harness
+    // limitation, reported as such (exit 2), never as a property verdict.
+    if done_rx.recv_timeout(std::time::Duration::from_secs(180)).is_err() && !th.is_finished() {
+        eprintln!("HARNESS-ERROR: a simulated execution did not finish within 180 s of wall time; the code under test probably blocks on a primitive that is not routed through the simulation seam");
+        println!("HARNESS-ERROR: execution stuck outside the simulator's control (exit 2)");
+        std::process::exit(2);
+    }
     th.join().expect("sim thread must not die");
     let r = out.lock().unwrap().take().expect("result");
     r
